@@ -174,9 +174,8 @@ func (a ApplyUpsertDappProposalHandler) Apply(ctx sdk.Context, proposalID uint64
 	dapp.ExecutorsMin = p.Dapp.ExecutorsMin
 	dapp.ExecutorsMax = p.Dapp.ExecutorsMax
 	dapp.VerifiersMin = p.Dapp.VerifiersMin
-	dapp.TotalBond = p.Dapp.TotalBond
-	dapp.CreationTime = p.Dapp.CreationTime
-	dapp.Status = p.Dapp.Status
+	// TotalBond, CreationTime and Status are the module's bookkeeping of the bond escrow and of the
+	// life cycle: a proposal of the dapp's controllers must not rewrite them
 	dapp.VoteQuorum = p.Dapp.VoteQuorum
 	dapp.VotePeriod = p.Dapp.VotePeriod
 	dapp.VoteEnactment = p.Dapp.VoteEnactment
@@ -185,6 +184,8 @@ func (a ApplyUpsertDappProposalHandler) Apply(ctx sdk.Context, proposalID uint64
 	}
 	dapp.EnableBondVerifiers = p.Dapp.EnableBondVerifiers
 
-	a.keeper.SetDapp(ctx, p.Dapp)
+	// store the updated record, not the proposal's own copy (which would also reset the pool fee,
+	// the team reserve, the premint time and the liquidation countdown)
+	a.keeper.SetDapp(ctx, dapp)
 	return nil
 }
